@@ -84,8 +84,15 @@ pub fn regex_tokinizer(tokinizer: &mut Tokinizer) {
 
 pub fn language_tokinizer(tokinizer: &mut Tokinizer) {
     let lowercase_data = tokinizer.data.to_lowercase();
+
+    /* Everything after the first '#' is comment, language based tokens must not be searched in it */
+    let code_data = match lowercase_data.find('#') {
+        Some(position) => &lowercase_data[..position],
+        None => &lowercase_data[..]
+    };
+
     for func in LANGUAGE_BASED_TOKEN_PARSER.iter() {
-        func(tokinizer.config, tokinizer, &lowercase_data);
+        func(tokinizer.config, tokinizer, code_data);
     }
 
     tokinizer.cleanup_token_infos();
